@@ -993,7 +993,35 @@ func ensureServiceTxn(tx WriteTxn, idx uint64, node string, preserveIndexes bool
 	}
 
 	// Insert the service and update the index
-	return catalogInsertService(tx, entry)
+	if err := catalogInsertService(tx, entry); err != nil {
+		return err
+	}
+
+	// The same service ID registered under another service name: the instance
+	// left the old name. Its index row is bumped while instances remain, and is
+	// replaced by the extinction index otherwise, exactly as deleteServiceTxn
+	// does, so that watchers of the old name see the change.
+	if existing != nil {
+		old := existing.(*structs.ServiceNode)
+		if old.ServiceName != entry.ServiceName {
+			q := Query{Value: old.ServiceName, EnterpriseMeta: old.EnterpriseMeta, PeerName: old.PeerName}
+			remaining, err := tx.First(tableServices, indexService, q)
+			if err != nil {
+				return fmt.Errorf("failed service lookup: %s", err)
+			}
+			if remaining != nil {
+				return catalogUpdateServiceIndexes(tx, idx, old.ServiceName, &old.EnterpriseMeta, old.PeerName)
+			}
+			_, serviceIndex, err := catalogServiceMaxIndex(tx, old.ServiceName, &old.EnterpriseMeta, old.PeerName)
+			if err == nil && serviceIndex != nil {
+				if err := tx.Delete(tableIndex, serviceIndex); err != nil {
+					return fmt.Errorf("failed deleting serviceIndex %s: %s", old.ServiceName, err)
+				}
+			}
+			return catalogUpdateServiceExtinctionIndex(tx, idx, &old.EnterpriseMeta, old.PeerName)
+		}
+	}
+	return nil
 }
 
 // assignServiceVirtualIP assigns a virtual IP to the target service and updates
